@@ -15,7 +15,7 @@ Inductive tok :=
 | TNot | TSprite
 | TOp (o : binop)
 | TInt (z : Z) | TConst (k : nat) | THash (n : nat)
-| TLoc (i : nat) | TPar (i : nat) | TGlob (n : nat) | TProp (n : nat)
+| TkLoc (i : nat) | TkPar (i : nat) | TkGlob (n : nat) | TkProp (n : nat)
 | TFun (f : nat) | TLFun (f : nat).
 
 Definition render_tok (en : env) (t : tok) : string :=
@@ -26,9 +26,9 @@ Definition render_tok (en : env) (t : tok) : string :=
   | TInt z => lingo_const KConst (str_of_int z)        (* the digits, through the constant renderer *)
   | TConst k => match nth k (e_consts en) (CInt 0) with CStr s => lingo_const KConst s | CInt z => str_of_int z end
   | THash n => "#" ++ nm en n
-  | TLoc i => name_of (nth i (e_locals en) (Leaf KLocal "" 0 true))
-  | TPar i => name_of (nth i (e_params en) (Leaf KParam "" 0 true))
-  | TGlob n | TProp n => nm en n
+  | TkLoc i => name_of (nth i (e_locals en) (Leaf KLocal "" 0 true))
+  | TkPar i => name_of (nth i (e_params en) (Leaf KParam "" 0 true))
+  | TkGlob n | TkProp n => nm en n
   | TFun f => nm en f
   | TLFun f => nth f (e_lfuncs en) ""
   end.
@@ -52,7 +52,7 @@ Fixpoint pp_tok (en : env) (e : expr) {struct e} : list tok :=
   | EInt n => [TInt n]
   | EConst k => [TConst k]
   | ESym n => [THash n]
-  | ELoc i => [TLoc i] | EPar i => [TPar i] | EGlob n => [TGlob n] | EProp n => [TProp n]
+  | ELoc i => [TkLoc i] | EPar i => [TkPar i] | EGlob n => [TkGlob n] | EProp n => [TkProp n]
   | EBin o x y =>
     if is_sprite_op o then [TSprite; TSp] ++ pp_tok en x ++ [TSp; TOp o; TSp] ++ pp_tok en y
     else [TLP] ++ pp_tok en x ++ [TSp; TOp o; TSp] ++ pp_tok en y ++ [TRP]
@@ -133,10 +133,10 @@ Fixpoint parse_u (fuel : nat) (ts : list tok) {struct fuel} : option (expr * lis
     | TInt z :: r => Some (EInt z, r)
     | TConst k :: r => Some (EConst k, r)
     | THash n :: r => Some (ESym n, r)
-    | TLoc i :: r => Some (ELoc i, r)
-    | TPar i :: r => Some (EPar i, r)
-    | TGlob n :: r => Some (EGlob n, r)
-    | TProp n :: r => Some (EProp n, r)
+    | TkLoc i :: r => Some (ELoc i, r)
+    | TkPar i :: r => Some (EPar i, r)
+    | TkGlob n :: r => Some (EGlob n, r)
+    | TkProp n :: r => Some (EProp n, r)
     | TMinus :: r => match parse_u f r with Some (e, r') => Some (ENeg e, r') | None => None end
     | TNot :: r => match parse_u f r with Some (e, r') => Some (ENot e, r') | None => None end
     | TSprite :: r =>
